@@ -170,7 +170,29 @@ def user_subclass(M):
     return _SUBCLASSES[M]
 
 
-FLAVOURS = ["listsub", "modelsub", "extras", "listsub+modelsub"]
+def rating_subclass(RC, which=0):
+    """a trivial application-side subclass of a rating class (a `Player(PlackettLuceRating)` that adds a field).  Two
+    siblings: 0 inherits the constructor, 1 has its OWN constructor signature (nick, mu, sigma) as application classes do.
+    Their instances ARE ratings of that model (isinstance).  Build instances with make_sub()."""
+    key = (RC, which)
+    if key not in _SUBCLASSES:
+        if which == 0:
+            _SUBCLASSES[key] = type("AppPlayer", (RC,), {"team_colour": "red"})
+        else:
+            def __init__(self, nick, mu, sigma, _RC=RC):
+                _RC.__init__(self, mu, sigma, nick)
+                self.nick = nick
+
+            _SUBCLASSES[key] = type("AppBot", (RC,), {"team_colour": "blue", "__init__": __init__})
+    return _SUBCLASSES[key]
+
+
+def make_sub(RC, which, mu, sigma, name=None):
+    C = rating_subclass(RC, which)
+    return C(mu, sigma, name) if which == 0 else C(name, mu, sigma)
+
+
+FLAVOURS = ["listsub", "modelsub", "extras", "listsub+modelsub", "ratingsub", "ratingsub"]
 
 
 def build(case, Ms=None):
@@ -198,6 +220,19 @@ def build(case, Ms=None):
         flat = [p for t in teams for p in t]
         for i, p in enumerate(flat):
             p.id = f"shared-{i % 2}"
+    if "ratingsub" in flavour:
+        # players are instances of an application-side SUBCLASS of the model's rating class (every other one, so that games
+        # mix plain and subclass objects); ids are fresh and unique as for any constructed rating
+        RC = type(teams[0][0])
+        n = 0
+        for t in teams:
+            for j, p in enumerate(t):
+                n += 1
+                if n % 2:
+                    q = make_sub(RC, n % 4 // 2, p.mu, p.sigma, p.name)
+                    if case.get("ids") == "shared":
+                        q.id = p.id
+                    t[j] = q
     if "extras" in flavour:
         # rating objects that carry application data next to the library's own attributes
         for i, t in enumerate(teams):
